@@ -325,6 +325,20 @@ func optRoundTrip(r *core.Run) {
 		for _, v := range smgp.ReadOptions(packet.NewPacketReader(append([]byte(nil), oser...))) {
 			vs = append(vs, v.Value())
 		}
+		// first the owner only grows its values in place (writes between len and cap): the other values of the same
+		// parse must not move
+		for _, b := range vs {
+			sp := b[len(b):cap(b)]
+			for i := range sp {
+				sp[i] = 0xEE
+			}
+		}
+		if d := setDiff(want, tlvSet(a)); d != "" {
+			r.Fail("C16", "roundtrip", "smpp.ReadTLVs", "after-owner-grew", "values of one parse share spare capacity: %s", d)
+		}
+		if d := setDiff(want, optSet(o1)); d != "" {
+			r.Fail("C16", "roundtrip", "smgp.ParseOptions", "after-owner-grew", "values of one parse share spare capacity: %s", d)
+		}
 		scrib(vs)
 		r.Probe("parsed_values_overwritten_by_their_owner")
 		a2, _ := smpp.ReadTLVs(packet.NewPacketReader(append([]byte(nil), ser...)))
@@ -612,6 +626,26 @@ func optAddAndAccessors(r *core.Run) {
 	ts, ok = splitTriplets(ser)
 	if !ok || len(ts) != 1 || ts[0].Tag != uint16(tag) || !bytes.Equal(ts[0].Val, val) {
 		r.Fail("C16", "add-lost", "smpp.TLVs.SetTLV", "nil-map", "SetTLV on an empty container is not visible in the serialisation")
+	}
+	// an EMPTY but existing container that is already attached somewhere (a PDU field, a second variable): the
+	// parameter added through one handle is seen through the other - they are the same container
+	r.Probe("add_to_empty_attached_container")
+	et := smpp.TLVs{}
+	pdu := &smpp34.SubmitSm{TLVs: et}
+	eo := smgp.Options{}
+	sub := &smgp30.Submit{Options: eo}
+	if p := r.Call("smpp.TLVs.SetTLV", func() {
+		et.SetTLV(smpp.NewTLV(uint16(tag), val))
+		eo.Add(smgp.NewOption(tag, val))
+	}); p != nil {
+		r.Fail("C16", "panic", p.Frame, p.Kind, "adding to an empty container: %s", p.Value)
+		return
+	}
+	if v, ok := pdu.TLVs[uint16(tag)]; !ok || !bytes.Equal(v.Value(), val) {
+		r.Fail("C16", "add-lost", "smpp.TLVs.SetTLV", "empty-attached", "a parameter added to an empty container is not seen through the PDU field the container was assigned to")
+	}
+	if v, ok := sub.Options[tag]; !ok || !bytes.Equal(v.Value(), val) {
+		r.Fail("C16", "add-lost", "smgp.Options.Add", "empty-attached", "a parameter added to an empty container is not seen through the PDU field the container was assigned to")
 	}
 }
 
